@@ -96,6 +96,60 @@ def replay_config(v, tier, ev):
         f"independent codec, 4 key sets per archive), {tot['drifts']} drifts")
 
 
+
+def long_histories(v, tier, ev):
+    """Beyond the depth of the exhaustive graph: random walks of the same Writer model (TLC -simulate, seeded) with up to
+    12 files and 45-70 calls (interleaved runs, empty pieces, add_file, StreamWriter, flushes), built on the real writer
+    under the four stackings and read back (listing, contents, sizes, hashes; also through a short-reading source)."""
+    import json
+    import os
+    nsim = 24 if tier == "quick" else 160
+    r = tlc("MCWriter", "Writer.long.cfg", "c01-long", workers=1, simulate=nsim, depth=72, seed_arg=4000 + seed(), timeout=1800, quiet=True)
+    ev["tlc"].append(dict(module="Writer", cfg="Writer.long.cfg (simulation)", generated=r.generated, distinct=r.distinct, depth=r.depth,
+                          violation=r.violation))
+    if r.violation:
+        tlc_counterexample_violation(v, r, "MCWriter", "Writer.long.cfg")
+        return
+    seen, scens = set(), []
+    for e in r.prints["EDGE"]:
+        if e["fx"] and e["lab"]["op"] == "finalize" and e["lab"]["res"] == "Ok":
+            k = canon(e["to"])
+            if k not in seen:
+                seen.add(k)
+                scens.append(dict(labels=e["to"], files=e["files"], ncalls=len(e["to"]), nfiles=len(e["files"]),
+                                  runs=sum(len(i["offs"]) for i in e["hid"]["info"])))
+    if not scens:
+        raise ToolError("no long behaviour reached finalize")
+    jobs = []
+    for si, sc in enumerate(scens):
+        for st in STACKS:
+            jobs.append(dict(par=dict(stack=st, seed=seed() + 400 + si, level=[5, 0, 11][si % 3], nrecip=1 + si % 2, reader=si % 2),
+                             labels=sc["labels"], files=sc["files"], sched=[7, 1, 64] if si % 2 else []))
+    wd = workdir("c01-long")
+    n = 8
+    from concurrent.futures import ThreadPoolExecutor
+
+    def one(i):
+        ap, op = os.path.join(wd, f"jobs{i}.jsonl"), os.path.join(wd, f"out{i}.json")
+        write_jsonl(ap, jobs[i::n])
+        mbt("s20", "transfer", os.devnull, ap, op, timeout=3000)
+        os.remove(ap)
+        return json.load(open(op))
+    build("s20")
+    with ThreadPoolExecutor(max_workers=n) as ex:
+        outs = list(ex.map(one, range(n)))
+    nruns = 0
+    for o in outs:
+        nruns += o["archive"]["runs"]
+        for viol in o["archive"]["violations"]:
+            v.violation(dict(check="long-history", kind=viol["kind"], stack=viol["par"]["stack"], op="finalize", name=None, src=None),
+                        dict(engine="transfer", profile="s20", detail=viol))
+    ev["long_histories"] = dict(behaviours=len(scens), archive_runs=nruns, max_calls=max(s["ncalls"] for s in scens),
+                                max_files=max(s["nfiles"] for s in scens), max_runs=max(s["runs"] for s in scens))
+    log(f"[C01] long histories: {len(scens)} simulated behaviours (up to {ev['long_histories']['max_calls']} calls, "
+        f"{ev['long_histories']['max_files']} files, {ev['long_histories']['max_runs']} runs) x 4 stackings built and read back")
+
+
 def main(tier):
     v = Verdict("C01", tier)
     ev = dict(tlc=[])
@@ -127,9 +181,10 @@ def main(tier):
                     p["profile"] = "prod"
         replay_writer(v, "C01", runs, variants, "s20", "c01", ev,
                       stride_of=(lambda p: 1 if p["level"] == 5 and p["nrecip"] == 1 else (7 if not heavy else 3)))
+    long_histories(v, tier, ev)
     replay_compwriter(v, tier, ev)
     replay_config(v, tier, ev)
-    cov = dict(states=ev.get("states", 0), transitions=ev.get("transitions", 0), compression_writer_model=ev.get("compwriter"), compression_writer_inductive=ev.get("compwriter_inductive"), configuration_model=ev.get("config"),
+    cov = dict(states=ev.get("states", 0), transitions=ev.get("transitions", 0), long_histories=ev.get("long_histories"), compression_writer_model=ev.get("compwriter"), compression_writer_inductive=ev.get("compwriter_inductive"), configuration_model=ev.get("config"),
                traces_validated_against_impl=ev.get("runs", 0), samples=ev.get("samples", [])[:3] or ["none"],
                edges_exported=ev.get("edges", 0), steps_replayed=ev.get("steps", 0),
                hidden_state_steps_compared=ev.get("hidden_compared", 0), archives_read_back=ev.get("readbacks", 0),
